@@ -16,19 +16,25 @@ int64_t nv_N;      /* ghost: product of the iterator's dimensions = 3^d */
 
 static struct nv_ivec nv_ivec_full(int64_t n, int64_t value) { struct nv_ivec v; v.n = n; v.vc = value; v.other = value; v.isg = 0; return v; }   /* make_full_tensor(make_dims(n), value) */
 static struct nv_ivecs nv_ivecs_empty(void) { struct nv_ivecs v; v.n = 0; v.elemg = nv_ivec_full(0, 0); v.cur = nv_ivec_full(0, 0); return v; }
-/* assumed contract of combinatorial_iterator_t{dims}: enumerates the prod(dims) combinations, each exactly once;
- * every combination x has 0 <= x[i] < dims[i] */
+/* combinatorial_iterator_t at the ghost coefficient nv_c: RESTATEMENT of the contracts PROVED on the real header (specs/C13/comb.h, comb.py;
+ * k = m_combination, total = m_combinations, lim = m_counts(nv_c), cur.vc = m_current(nv_c), cur.n = m_dimensions):
+ *   constructor (target comb_ctor): index 0, total = the product of the counts (named nv_N), every digit 0;
+ *   operator++ from a valid state (targets comb_next, comb_next_any + the comb_rank lemmas): terminates, the index grows by exactly one, and
+ *   WHILE THE ITERATOR IS STILL VALID the digits are those of the successor numeral, in particular 0 <= digit < count (after the last
+ *   combination the digits are unspecified); the indices 0 .. total-1 name pairwise distinct digit vectors (rank injectivity lemma);
+ *   operator bool (comb_valid): index < total; operator* (comb_deref): the digit vector. */
 static struct nv_comb nv_comb_make(const struct nv_ivec* dims)
 {
-  struct nv_comb it; it.k = 0; it.total = nv_N; it.lim = dims->vc; it.cur = nv_ivec_full(dims->n, 0); it.cur.vc = nv_nondet_int64_t();
-  __CPROVER_assume(0 <= it.cur.vc && it.cur.vc < it.lim);
+  __CPROVER_assert(dims->n >= 1 && dims->vc >= 1, "combinatorial_iterator_t{counts}: at least one dimension, every count >= 1 (precondition of comb_ctor)");
+  struct nv_comb it; it.k = 0; it.total = nv_N; it.lim = dims->vc; it.cur = nv_ivec_full(dims->n, 0);
   return it;
 }
 static void nv_comb_next(struct nv_comb* it)
 {
   __CPROVER_assert(it->k < it->total, "++it only while the iterator is valid");
+  __CPROVER_assert(it->lim >= 2, "++it terminates: some count is >= 2 (precondition of comb_next_any; here every count is 3)");
   it->k = it->k + 1; it->cur.vc = nv_nondet_int64_t();
-  __CPROVER_assume(0 <= it->cur.vc && it->cur.vc < it->lim);
+  if (it->k < it->total) __CPROVER_assume(0 <= it->cur.vc && it->cur.vc < it->lim);
 }
 /* Eigen coefficient-wise operators at the ghost coefficient (assumed: array op array / array op scalar act per coefficient) */
 static struct nv_ivec nv_ivec_sub_s(struct nv_ivec a, int64_t s) { a.vc = a.vc - s; return a; }
@@ -62,7 +68,7 @@ __CPROVER_ensures(0 <= __CPROVER_return_value.n && __CPROVER_return_value.n <= n
 __CPROVER_ensures(nv_gpos >= __CPROVER_return_value.n || NV_CAND(__CPROVER_return_value.elemg))
 #define NV_LOOP_tuner_local_search_1 \
 __CPROVER_assigns(it, igrids) \
-__CPROVER_loop_invariant(0 <= it.k && it.k <= it.total && it.total == nv_N && it.lim == 3 && it.cur.n == n_ && 0 <= it.cur.vc && it.cur.vc < 3 \
+__CPROVER_loop_invariant(0 <= it.k && it.k <= it.total && it.total == nv_N && it.lim == 3 && it.cur.n == n_ && (it.k >= it.total || (0 <= it.cur.vc && it.cur.vc < 3)) \
   && 0 <= igrids.n && igrids.n <= it.k && (nv_gpos >= igrids.n || NV_CAND(igrids.elemg))) \
 __CPROVER_decreases(it.total - it.k)
 
